@@ -7,7 +7,7 @@ from props import rwcommon as rc
 ID = "C03"
 PROP_FILE = "props/C03.v"
 COQ_TARGETS = ["props/C03.v"]
-THEOREMS = ["C03_proj_sound", "C03_only_subscribed", "C03_kept_sites_all", "C03_rw_frag_canonical", "C03_rw_frag_proj"]
+THEOREMS = ["C03_proj_sound", "C03_only_subscribed", "C03_kept_sites_all", "C03_rw_frag_canonical", "C03_rw_frag_proj", "C03_frag_projection"]
 TRUSTED_BASE = [
     "Coq 8.16.1 kernel, vm_compute for the per-pair projection certificates",
     "tools/impl/astexport.py (AST -> Coq term, interning shared by the two rewrites, id canonicalisation), tools/translators/gen_pyast.py + gen_events.py",
@@ -231,6 +231,11 @@ def run(ctx, model_ok):
     for c in cases:
         key = "|E1|=%s,|E2|=%s" % ("1" if len(c["e1"]) == 1 else ("2-9" if len(c["e1"]) < 10 else "10+"), "all" if len(c["e2"]) >= 80 else "part")
         sizes[key] = sizes.get(key, 0) + 1
+    # the fragment semantics (model/FragSem.v, theorem C03_frag_projection) against the real rewriter, CPython and the real runtime
+    ksem = (0, 0, {})
+    if model_ok:
+        from props import rwfrag
+        ksem = rwfrag.check_sem(ctx, rng, 30 if ctx.tier == "quick" else 300)
     return {
         "evaluations": len(cases),
         "distinct_nontrivial": len({lib.digest(c) for c, im in zip(cases, impl)
@@ -240,7 +245,7 @@ def run(ctx, model_ok):
                 "filtered to E1 (event, node type, node span, value), in order; non-trivial = >=3 occurrences under E1; distinct by sha1",
         "samples": [{"e1": cases[-1]["e1"][:6], "e2_size": len(cases[-1]["e2"]), "guards": cases[-1]["guards"], "src_tail": cases[-1]["src"][-300:]}],
         "traces_validated": ok["proj"],
-        "distribution": {"pairs": sizes, "occurrences_compared_under_E1": occ, "certificates_checked": len(rows), "certificates_ok": ok,
+        "distribution": {"k_sem_fragment_programs": ksem[0], "k_sem_agreeing": ksem[1], "pairs": sizes, "occurrences_compared_under_E1": occ, "certificates_checked": len(rows), "certificates_ok": ok,
                          "programs_raising": sum(1 for im in impl if "configs" in im and im["configs"][0].get("exc"))},
         "failures": failures, "extra": {"certificate_failures": len(bad)},
     }
